@@ -375,6 +375,11 @@ def check_coll_trim(case, T):
         if isinstance(shown, dict) or len(shown) != len(seqs):
             return dict(what=f"{entry} [{mt}]: building the collection with history {'+'.join(hist)} failed", expected=seqs, got=shown,
                         sig=f"{entry}[{mt}]:history-build:{'+'.join(sorted(set(hist)))}")
+        if [s.replace("U", "T") for s in shown] != list(seqs):
+            # judged since the repairs 437a33710 / d037a68a8: a derived collection must display what its history implies
+            return dict(what=f"{entry} [{mt}]: after {'+'.join(hist)} the collection does not display the sequences its history implies "
+                             "(every rc reverse-complements what is displayed; take_seqs / rename_seqs / copy / moltype conversion / slicing keep it)",
+                        expected=list(seqs), got=[s.replace("U", "T") for s in shown], sig=f"{entry}[{mt}]:derived-display:{'+'.join(sorted(set(hist)))}")
         pre = list(seqs)
         seqs = [s.replace("U", "T") for s in shown]
         wants = [o_trim_stop(tbl, s, strict) for s in seqs]
